@@ -301,6 +301,52 @@ def write_ops(path, lines):
 # =========================================================================================
 ALL_CBS = ["r %d 1" % k for k in range(12)]
 
+def vary(ops, seed, start_frac=0.6, p_str=0.25, p_reg=0.02):
+    """the same traffic through an unusual but legal calling pattern, from `start_frac` of the stream on: a share of the groups
+    goes through rdsparser_parse_string (16-character form when all four error codes are 0 — sometimes —, 18-character form
+    otherwise, digits in random case) instead of rdsparser_parse, and now and then a callback is removed for a few calls and put
+    back, or the user data changes. The model follows every one of these ops, so the monitors and the comparison stay exact."""
+    r = random.Random(seed * 7919 + 13)
+    k = int(len(ops) * start_frac)
+    out = []
+    pending = []
+    cur = 0; alive = {}
+    for i, line in enumerate(ops):
+        w = line.split()
+        if w and w[0] == "@": cur = int(w[1])
+        elif line in ("new", "init"): alive[cur] = True
+        elif line in ("free", "mf", "fn"): alive[cur] = False
+        if i < k:
+            out.append(line); continue
+        ok = alive.get(cur, False) and not (w and w[0] == "@")
+        still = []
+        isgroup = line.startswith(("p ", "s "))
+        for cnt, c, l in pending:
+            if cnt <= 0:
+                if ok and c == cur and line not in ("new", "init", "free", "mf", "fn"): out.append(l)
+                elif cnt > -40: still.append((cnt - 1, c, l))         # wait for a call on that instance, not for ever
+            else: still.append((cnt - (1 if isgroup and c == cur else 0), c, l))   # the gap is counted in groups delivered
+        pending = still
+        if line.startswith("p "):
+            v = [int(x) for x in w[1:]]
+            if len(v) == 8 and all(0 <= x < 65536 for x in v[:4]) and all(0 <= e <= 3 for e in v[4:]) and r.random() < p_str:
+                txt = "%04X%04X%04X%04X" % tuple(v[:4])
+                if any(v[4:]) or r.random() < 0.5:
+                    txt += "%02X" % ((v[4] << 6) | (v[5] << 4) | (v[6] << 2) | v[7])
+                txt = "".join(ch.lower() if r.random() < 0.4 else ch for ch in txt)
+                line = hexstr(txt.encode())
+        elif line in ("new", "init"):
+            pending = [x for x in pending if x[1] != cur]
+        out.append(line)
+        x = r.random()
+        if not ok or line in ("free", "mf", "fn"): continue
+        if x < p_reg:
+            kk = r.randrange(12)
+            out.append("r %d 0" % kk); pending.append((r.randrange(1, 7), cur, "r %d 1" % kk))
+        elif x < p_reg * 1.5:
+            out.append("u %d" % r.randrange(1, 1 << 20))
+    return out
+
 def P(a, b, c, d, ea=0, eb=0, ec=0, ed=0):
     return "p %d %d %d %d %d %d %d %d" % (a, b, c, d, ea, eb, ec, ed)
 
@@ -508,6 +554,39 @@ def sweep_af_histories():
             if len(set(h)) == 1: continue
             out.append("clear")
             for k, c in enumerate(h): out.append(P(0x1234, 0x0008 | (k & 3), c, 0x2020))
+    return out
+
+def sweep_partial_registration():
+    """every registration pattern with exactly one callback missing, and with exactly one present: thresholds raised, traffic of
+    every decoded kind (clean and corrected), then every setter moved down and up again, a clear, and the traffic once more —
+    a pointer used without (or behind the wrong) NULL test is a call through NULL here"""
+    out = []
+    traffic = [P(0x3ABC, 0x0000 | (5 << 5) | (1 << 10) | (1 << 4) | (1 << 3), 0x0A14, 0x4142),
+               P(0x3ABC, 0x0001 | (5 << 5), 0x1E28, 0x4344, 0, 1, 0, 1),
+               P(0x3ABC, 0x1000 | (5 << 5), 0x00E0, 0),
+               P(0x3ABC, 0x2000 | (5 << 5), 0x4142, 0x4344), P(0x3ABC, 0x2001 | (5 << 5), 0x4546, 0x4748, 0, 1, 1, 2),
+               P(0x3ABC, 0x2010 | (5 << 5), 0x4142, 0x4344), P(0x3ABC, 0x2811 | (5 << 5), 0x4546, 0x4748, 0, 2, 0, 1),
+               P(0x3ABC, 0xA000 | (5 << 5), 0x4142, 0x4344), P(0x3ABC, 0xA001 | (5 << 5), 0x4546, 0x4748, 0, 1, 2, 2),
+               P(0x3ABC, 0x4000 | (5 << 5) | 1, 0xD0C8, 0x1000 | (30 << 6)),
+               P(0x4DEF, 0x0002 | (9 << 5), 0x3246, 0x4546), P(0x4DEF, 0x0002 | (9 << 5), 0x3246, 0x4546)]
+    setters = ["c %d %d %d" % (t, k, v) for v in (1, 0, 2) for t in range(3) for k in range(2)] + \
+              ["g %d %d" % (t, v) for v in (1, 0) for t in range(3)] + ["x 1", "x 0", "u 9"]
+    for only in (0, 1):
+        for k in range(12):
+            regs = ["r %d 1" % i for i in range(12) if (i == k) == bool(only)]
+            out += ["new"] + regs + ["c %d %d 2" % (t, kk) for t in range(3) for kk in range(2)]
+            out += traffic + setters + ["q", "clear"] + traffic[:6] + ["q"]
+    return out
+
+def sweep_country_callbacks():
+    """C18 (look-ups are pure functions, also inside callbacks): every PI country nibble x a spread of ECC values on a fresh parser,
+    so that the ECC / country / PI callbacks run with every kind of country decoded — the harness repeats the look-ups inside every
+    callback and compares with the answers it got before the first API call"""
+    out = []
+    eccs = list(range(0xA0, 0xA7)) + list(range(0xD0, 0xD5)) + list(range(0xE0, 0xE5)) + list(range(0xF0, 0xF5)) + [0x00, 0xFF]
+    for nib in range(1, 16):
+        for e in eccs:
+            out += ["new"] + ALL_CBS + [P((nib << 12) | 0x0ABC, 0x1000 | (9 << 5), e, 0), P((nib << 12) | 0x0ABC, 0x0008 | (9 << 5), 0x0A14, 0x4142), "q"]
     return out
 
 def sweep_rt_sums():
